@@ -250,7 +250,7 @@ def main(tier):
     ev.cov["rule"] = RULE
     ev.assumptions = ["columns are counted in bytes, a tab is one column; only start positions and file names are compared",
                       "every generated call site begins with an identifier (the property's restriction)"]
-    n = 6000 if tier == "quick" else 200000
+    n = 6000 if tier == "quick" else 90000
     failures = hyp.run("c20", ev, tier, n)
     confirmed = hyp.confirm("c20", failures, PID)
     for p, what in confirmed:
